@@ -29,7 +29,9 @@ fn layers(id: &str) -> (&'static str, Vec<Layer>) {
     match id {
         "C02" => ("c02", vec![
             Layer { tool: Miri, kind: "conc", extra: &[], quick: 6, thorough: 96 },
+            Layer { tool: Miri, kind: "raw", extra: &[], quick: 8, thorough: 96 },
             Layer { tool: Tsan, kind: "conc", extra: &[], quick: 0, thorough: 1500 },
+            Layer { tool: Tsan, kind: "raw", extra: &[("rounds", "200")], quick: 0, thorough: 600 },
         ]),
         "C03" => ("c03", vec![
             Layer { tool: Miri, kind: "prog", extra: &[("progs", "2")], quick: 6, thorough: 96 },
